@@ -27,6 +27,7 @@ package fsm
 // tombstones: a directory entry carrying the tombstone's key and, as ModifyIndex, its index) - nothing else.
 //@ func snapshot.persistTombstones
 //@ props C02
+//@ opt record persistTombstones
 //@ results err
 //@ requires s != nil && s.state != nil
 //@ ensures[every-tombstone-written] err == nil ==> outLen() == old(outLen()) + 2*itLen(stones) && forall j int :: 0 <= j && j < itLen(stones) ==> outIsBytes(old(outLen()) + 2*j) && eq(outBytes(old(outLen()) + 2*j), byte1(structs.TombstoneRequestType)) && !outIsBytes(old(outLen()) + 2*j + 1) && is[*structs.DirEntry](outObj(old(outLen()) + 2*j + 1)) && allocated(as[*structs.DirEntry](outObj(old(outLen()) + 2*j + 1))) && as[*structs.DirEntry](outObj(old(outLen()) + 2*j + 1)).Key == itElem(stones, j).(*state.Tombstone).Key && as[*structs.DirEntry](outObj(old(outLen()) + 2*j + 1)).ModifyIndex == itElem(stones, j).(*state.Tombstone).Index
@@ -36,6 +37,7 @@ package fsm
 
 //@ func snapshot.persistKVs
 //@ props C02
+//@ opt record persistKVs
 //@ results err
 //@ requires s != nil && s.state != nil
 //@ ensures[every-row-written] err == nil ==> outLen() == old(outLen()) + 2*itLen(entries) && forall j int :: 0 <= j && j < itLen(entries) ==> outIsBytes(old(outLen()) + 2*j) && eq(outBytes(old(outLen()) + 2*j), byte1(structs.KVSRequestType)) && !outIsBytes(old(outLen()) + 2*j + 1) && outObj(old(outLen()) + 2*j + 1) == any(itElem(entries, j).(*structs.DirEntry))
@@ -45,6 +47,7 @@ package fsm
 
 //@ func snapshot.persistSessions
 //@ props C02
+//@ opt record persistSessions
 //@ results err
 //@ requires s != nil && s.state != nil
 //@ ensures[every-row-written] err == nil ==> outLen() == old(outLen()) + 2*itLen(sessions) && forall j int :: 0 <= j && j < itLen(sessions) ==> outIsBytes(old(outLen()) + 2*j) && eq(outBytes(old(outLen()) + 2*j), byte1(structs.SessionRequestType)) && !outIsBytes(old(outLen()) + 2*j + 1) && outObj(old(outLen()) + 2*j + 1) == any(itElem(sessions, j).(*structs.Session))
@@ -65,3 +68,103 @@ package fsm
 //@ results err
 //@ requires restore != nil
 //@ ensures[decoded-entry-stored] err == nil ==> T_kvs(req.Key) != nil && T_kvs(req.Key).ModifyIndex == req.ModifyIndex && T_kvs(req.Key).CreateIndex == req.CreateIndex && eq(T_kvs(req.Key).Value, req.Value) && T_kvs(req.Key).Session == req.Session && T_kvs(req.Key).Flags == req.Flags && T_kvs(req.Key).LockIndex == req.LockIndex
+
+// ---- C02 (coverage of the snapshot): persistCE runs EVERY per-table persister, and reports success only if every one
+// of them did. The persisters that are not under contract are used through ASSUMED frames (they write to the snapshot
+// stream only); their calls are recorded.
+//@ func snapshot.persistACLs
+//@ trusted
+//@ opt record persistACLs
+//@ results err
+//@ modifies nothing
+//@ func snapshot.persistAutopilot
+//@ trusted
+//@ opt record persistAutopilot
+//@ results err
+//@ modifies nothing
+//@ func snapshot.persistConfigEntries
+//@ trusted
+//@ opt record persistConfigEntries
+//@ results err
+//@ modifies nothing
+//@ func snapshot.persistConnectCA
+//@ trusted
+//@ opt record persistConnectCA
+//@ results err
+//@ modifies nothing
+//@ func snapshot.persistConnectCAConfig
+//@ trusted
+//@ opt record persistConnectCAConfig
+//@ results err
+//@ modifies nothing
+//@ func snapshot.persistConnectCAProviderState
+//@ trusted
+//@ opt record persistConnectCAProviderState
+//@ results err
+//@ modifies nothing
+//@ func snapshot.persistFeatureGates
+//@ trusted
+//@ opt record persistFeatureGates
+//@ results err
+//@ modifies nothing
+//@ func snapshot.persistFederationStates
+//@ trusted
+//@ opt record persistFederationStates
+//@ results err
+//@ modifies nothing
+//@ func snapshot.persistIndex
+//@ trusted
+//@ opt record persistIndex
+//@ results err
+//@ modifies nothing
+//@ func snapshot.persistLegacyIntentions
+//@ trusted
+//@ opt record persistLegacyIntentions
+//@ results err
+//@ modifies nothing
+//@ func snapshot.persistNodes
+//@ trusted
+//@ opt record persistNodes
+//@ results err
+//@ modifies nothing
+//@ func snapshot.persistPeeringSecrets
+//@ trusted
+//@ opt record persistPeeringSecrets
+//@ results err
+//@ modifies nothing
+//@ func snapshot.persistPeeringTrustBundles
+//@ trusted
+//@ opt record persistPeeringTrustBundles
+//@ results err
+//@ modifies nothing
+//@ func snapshot.persistPeerings
+//@ trusted
+//@ opt record persistPeerings
+//@ results err
+//@ modifies nothing
+//@ func snapshot.persistPreparedQueries
+//@ trusted
+//@ opt record persistPreparedQueries
+//@ results err
+//@ modifies nothing
+//@ func snapshot.persistResources
+//@ trusted
+//@ opt record persistResources
+//@ results err
+//@ modifies nothing
+//@ func snapshot.persistSystemMetadata
+//@ trusted
+//@ opt record persistSystemMetadata
+//@ results err
+//@ modifies nothing
+//@ func snapshot.persistVirtualIPs
+//@ trusted
+//@ opt record persistVirtualIPs
+//@ results err
+//@ modifies nothing
+
+//@ func persistCE
+//@ props C02
+//@ results err
+//@ requires s != nil && s.state != nil
+//@ ensures[every-table-persisted] err == nil ==> called("persistACLs") && lastErr("persistACLs") == nil && called("persistAutopilot") && lastErr("persistAutopilot") == nil && called("persistConfigEntries") && lastErr("persistConfigEntries") == nil && called("persistConnectCA") && lastErr("persistConnectCA") == nil && called("persistConnectCAConfig") && lastErr("persistConnectCAConfig") == nil && called("persistConnectCAProviderState") && lastErr("persistConnectCAProviderState") == nil && called("persistFeatureGates") && lastErr("persistFeatureGates") == nil && called("persistFederationStates") && lastErr("persistFederationStates") == nil && called("persistIndex") && lastErr("persistIndex") == nil && called("persistKVs") && lastErr("persistKVs") == nil && called("persistLegacyIntentions") && lastErr("persistLegacyIntentions") == nil && called("persistNodes") && lastErr("persistNodes") == nil && called("persistPeeringSecrets") && lastErr("persistPeeringSecrets") == nil && called("persistPeeringTrustBundles") && lastErr("persistPeeringTrustBundles") == nil && called("persistPeerings") && lastErr("persistPeerings") == nil && called("persistPreparedQueries") && lastErr("persistPreparedQueries") == nil && called("persistResources") && lastErr("persistResources") == nil && called("persistSessions") && lastErr("persistSessions") == nil && called("persistSystemMetadata") && lastErr("persistSystemMetadata") == nil && called("persistTombstones") && lastErr("persistTombstones") == nil && called("persistVirtualIPs") && lastErr("persistVirtualIPs") == nil
